@@ -686,22 +686,17 @@ func deleteInPlace(s []*pb.AddrBookRecord_AddrEntry, addrs []ma.Multiaddr) []*pb
 	if s == nil || len(addrs) == 0 {
 		return s
 	}
-	survived := len(s)
+	// Keep the entries that match none of addrs, compacting them to the front.
+	survived := 0
 Outer:
-	for i, addr := range s {
+	for _, addr := range s {
 		for _, del := range addrs {
-			if !bytes.Equal(del.Bytes(), addr.Addr) {
-				continue
+			if bytes.Equal(del.Bytes(), addr.Addr) {
+				continue Outer
 			}
-			survived--
-			// if there are no survivors, bail out
-			if survived == 0 {
-				break Outer
-			}
-			s[i] = s[survived]
-			// we've already dealt with s[i], move to the next
-			continue Outer
 		}
+		s[survived] = addr
+		survived++
 	}
 	return s[:survived]
 }
